@@ -50,6 +50,15 @@ TABLE = {
             "Symbolic execution of sum/cumsum/mean/prod/diff/ediff1d/inner/outer/matmul/det (function, method and numpy.add.reduce/accumulate spellings) with symbolic coefficients; all axes, "
             "axis tuples, keepdims, n, prepend/append; matrices 1x1..3x3 (4x4 thorough) and stacks; oracle = numpy's own fold over an object array of model polynomials, Leibniz formula for det.",
             E1_NOTE, E1_TECH),
+    "C12": ("model_checking", "E2 Kernels",
+            "(A) the raw-copy kernels' dispatch table is read from cvalues.pyx; every constructor / cast / arithmetic / indexing entry point is executed per dtype configuration (14 dtypes, ordered "
+            "pairs) with recording wrappers on the kernel entry points, and for each recorded kernel call (source dtype T, field dtype D) z3 decides over all coefficient bit patterns and all initial "
+            "heap contents whether the field can differ from numpy's cast (unwritten field, wrong store width, raw bits instead of a cast); the same executions run with every fresh buffer poisoned "
+            "(0xA5) and are compared with numpy's own casts and promoted arithmetic. (B) the E1 catalogue runs with Havoc-filled fresh buffers: a result that still contains, or a branch that "
+            "depends on, a Havoc atom is a read of memory never written, for every input value; cancelling, empty and all-terms-dropped results are included.",
+            "Trusted: numpy's casts and ufunc arithmetic on plain arrays (the reference), z3. No Cython: the kernels are analysed from the .pyx text; a source/binary mismatch would show as a native "
+            "problem without a failing obligation and is reported as a Python-level dtype violation.",
+            "trace extraction of kernel calls + z3 byte-level obligations per call; Havoc-atom symbolic execution for uninitialised reads"),
     "C13": ("model_checking", "E1 SymObj",
             "Symbolic execution of __reduce__/polynomial_from_attributes through pickle protocols 0-5, copy.copy/deepcopy/.copy(), and of numpoly.savetxt / numpy.savetxt + numpoly.loadtxt with "
             "symbolic coefficients (values travel through the text file as tokens), for 0-d, size-1, n-d arrays, strided views, single-term polynomials, retained zero columns, "
